@@ -327,3 +327,5 @@ func genWalk() {
 	b.WriteString("].\n")
 	writeIfChanged("GenWalk.v", b.String())
 }
+
+func init() { generators = append(generators, genWalk) }
